@@ -282,7 +282,17 @@ def run(ctx):
         size = float(rng.choice([10.0, -4.5, 0.125]))
         x = np.asarray([[rng.gauss(0, 1) for _ in range(p)] for _ in range(n)])
         df = pd.DataFrame(x.copy(), columns=[f"var{j}" for j in range(p)])
-        inp = {"fn": "add_linspace_outliers", "n": n, "p": p, "n_outliers": k, "outlier_size": size, "x": x.tolist()}
+        layout = "single-block"
+        if p >= 2 and i % 3 == 1:
+            # the same values in a frame that pandas stores in several blocks (columns joined / appended afterwards)
+            df = pd.concat([pd.DataFrame(x[:, :1].copy(), columns=["var0"]), pd.DataFrame(x[:, 1:].copy(), columns=[f"var{j}" for j in range(1, p)])], axis=1)
+            layout = "concat"
+        elif p >= 2 and i % 3 == 2:
+            df = pd.DataFrame(x[:, :-1].copy(), columns=[f"var{j}" for j in range(p - 1)])
+            df[f"var{p - 1}"] = x[:, -1].copy()
+            layout = "column-appended"
+        ctx.count("outlier_frame_layout", layout)
+        inp = {"fn": "add_linspace_outliers", "n": n, "p": p, "n_outliers": k, "outlier_size": size, "x": x.tolist(), "frame_layout": layout}
         st, out = call(G.add_linspace_outliers, df, k, size)
         if st != "ok":
             ctx.violation(f"add_linspace_outliers(n={n}, p={p}, n_outliers={k}) raised {st}: {out}", inp,
